@@ -1,0 +1,11 @@
+//go:build verif
+// +build verif
+
+package server
+
+import "net/http"
+
+// VerifMux exposes the server's HTTP handler for in-process requests (build tag "verif").
+func (ctrl *Controller) VerifMux() http.Handler {
+	return ctrl.mux()
+}
